@@ -15,10 +15,9 @@ Definition run_group := (list (option nat) * list step_obs)%type.
    records, after every call, the value returned, the raw stream position and the
    reader's own buffers; the model's reader must show exactly the same look-ahead.
    These cases say nothing about boltons (holds = true): they tie Model.rd_read /
-   rd_readline / utf8_dec, on which the text theorems rest, to the standard library. *)
+   utf8_dec, on which the text theorems rest, to the standard library. *)
 Inductive rop :=
 | RRead (size chars : option nat)      (* reader.read(size, chars); None = -1 *)
-| RReadLine                            (* reader.readline() *)
 | RSeek0                               (* reader.seek(0): stream.seek(0) + reset() *)
 | RReset.                              (* reader.reset() *)
 
@@ -37,7 +36,6 @@ Definition robs_eqb (a b : robs) : bool :=
 Definition reader_step (e : encfile) (op : rop) : encfile * list N :=
   match op with
   | RRead size chars => rd_read e size chars
-  | RReadLine => rd_readline e
   | RSeek0 => (mkEF (f_seek0 (ef_stream e) 0) (rd_reset (ef_rd e)), [])
   | RReset => (mkEF (ef_stream e) (rd_reset (ef_rd e)), [])
   end.
@@ -84,35 +82,12 @@ Definition holds_runs (k : fkind) (ops : list fop) (runs : list run_group) : boo
   | None => false
   end.
 
-(* ---- guard of the open finding C18-line-boundaries --------------------------
-   SpooledStringIO line calls split where str.splitlines / bytes.splitlines do
-   (\r \v \f \x1c \x1d \x1e \x85 U+2028 U+2029), io.StringIO only at \n.
-   Inside the guard = text history, some written character is one of those, and
-   the FIRST step whose observation differs from the reference is a line call. *)
-Fixpoint first_diff_is_line (ops : list fop) (r o : list step_obs) : bool :=
-  match ops, r, o with
-  | op :: ops', x :: r', y :: o' =>
-      if step_obs_eqb x y then first_diff_is_line ops' r' o' else is_line_op op
-  | _, _, _ => false
-  end.
-
-Definition known_runs (ops : list fop) (runs : list run_group) : bool :=
-  writes_odd_break ops &&
-  match ref_run KString rf_empty ops with
-  | Some r => forallb (fun g : run_group =>
-                         obs_list_eqb r (snd g) ||
-                         (first_diff_is_line ops r (snd g) && forallb (fun m => match m with Some _ => true | None => false end) (fst g)))
-                      runs
-  | None => false
-  end.
-
 Definition c18_verdict (c : c18_case) : verdict :=
   match c with
   | CBytes ops runs =>
       (agree_runs (fun max => sb_run (sb_init max) ops) runs, holds_runs KBytes ops runs, false)
   | CString chunk ops runs =>
-      (agree_runs (fun max => ss_run (ss_init max chunk) ops) runs, holds_runs KString ops runs,
-       known_runs ops runs)
+      (agree_runs (fun max => ss_run (ss_init max chunk) ops) runs, holds_runs KString ops runs, false)
   | CMfr contents ops obs =>
       (list_eqb fobs_eqb (mfr_run (mfr_init contents) ops) obs,
        match mref_run (mkRF (concat contents) 0) ops with
